@@ -113,9 +113,12 @@ func init() {
 		width, height := I(op, "width"), I(op, "height")
 		var fm sync.Mutex
 		frames := []string{}
+		expected := []int{} // the terminal height in force when each frame was drawn
+		curHeight := height
 		s := ui.NewState(width, height, func(frame string) {
 			fm.Lock()
 			frames = append(frames, frame)
+			expected = append(expected, curHeight)
 			fm.Unlock()
 		})
 		snaps := []any{}
@@ -130,6 +133,20 @@ func init() {
 		for _, raw := range L(op, "keys") {
 			k := substitute(raw.(string), sm.hosts, opid)
 			keys = append(keys, k)
+			if strings.HasPrefix(k, "RESIZE ") {
+				/* a terminal resize between keys (the interface is settled here) */
+				var w, h int
+				fmt.Sscanf(k, "RESIZE %d %d", &w, &h)
+				fm.Lock()
+				curHeight = h
+				fm.Unlock()
+				s.SetWidthHeight(w, h)
+				if !waitSettled(s) {
+					return map[string]any{"wedged": "after resize", "snaps": snaps}
+				}
+				snaps = append(snaps, s.VerifSnapshot())
+				continue
+			}
 			for _, b := range []byte(k) {
 				s.Update(b)
 				if !waitSettled(s) {
@@ -142,9 +159,8 @@ func init() {
 		fm.Lock()
 		hs := []any{}
 		bad := []any{}
-		for _, f := range frames {
-			hs = append(hs, strings.Count(f, "\n")+1)
-			_ = f
+		for i, f := range frames {
+			hs = append(hs, []any{strings.Count(f, "\n") + 1, expected[i]})
 		}
 		all := append([]string{}, frames...)
 		fm.Unlock()
@@ -300,6 +316,32 @@ func genUI(r *rand.Rand, n int, emit func(Op)) {
 				keys = append(keys, pick(r, []string{"\x00", "\xff", "\t", "\n", "Z", "~", "é"}))
 			}
 		}
+		/* terminal resizes between keys, also in the middle of typing a command or a number;
+		   often only one of the two dimensions changes */
+		uiW, uiH := 20+r.Intn(100), 2+r.Intn(50)
+		if r.Intn(2) == 0 {
+			w, h := uiW, uiH
+			for k := 0; k < 1+r.Intn(3); k++ {
+				switch r.Intn(3) {
+				case 0:
+					h = 1 + r.Intn(60)
+				case 1:
+					w = 1 + r.Intn(120)
+				default:
+					w, h = 1+r.Intn(120), 1+r.Intn(60)
+				}
+				resize := fmt.Sprintf("RESIZE %d %d", w, h)
+				at := r.Intn(len(keys) + 1)
+				if r.Intn(2) == 0 {
+					/* while a command or a number is being typed */
+					typing := pick(r, []string{":", ":op", "1", "12", ":feed ho"})
+					rest := pick(r, []string{"\x1b", "\r", ".", "\x7f", "j"})
+					keys = append(keys[:at:at], append([]any{typing, resize, rest}, keys[at:]...)...)
+				} else {
+					keys = append(keys[:at:at], append([]any{resize}, keys[at:]...)...)
+				}
+			}
+		}
 		/* a second outbox (bob's) and feeds merging outboxes, threads and collections */
 		bacts := []any{}
 		for a := 0; a < r.Intn(6); a++ {
@@ -330,6 +372,6 @@ func genUI(r *rand.Rand, n int, emit func(Op)) {
 				keys[k] = ":feed " + pick(r, []string{"home", "mixed", "one", "none", "unknown"}) + "\r"
 			}
 		}
-		emit(Op{"op": "ui", "routes": g.routes, "start": pick(r, starts), "keys": keys, "feeds": feeds, "width": 20 + r.Intn(100), "height": 2 + r.Intn(50)})
+		emit(Op{"op": "ui", "routes": g.routes, "start": pick(r, starts), "keys": keys, "feeds": feeds, "width": uiW, "height": uiH})
 	}
 }
